@@ -278,11 +278,11 @@ def run_driver(jobs, script="driver.mjs", timeout=600, nproc=NCPU):
     return out
 
 
-def run_engine(jobs, timeout=600, nproc=NCPU):
-    """Run jobs through the Rust engine harness (one JSON per line); returns results in job order."""
+def run_engine(jobs, timeout=600, nproc=NCPU, exe_name="engine"):
+    """Run jobs through a Rust line-protocol harness (one JSON per line); returns results in job order."""
     if not jobs:
         return []
-    exe = os.path.join(TARGET, "release", "engine")
+    exe = os.path.join(TARGET, "release", exe_name)
     chunks = [jobs[i::nproc] for i in range(nproc) if jobs[i::nproc]]
 
     def one(chunk):
@@ -307,6 +307,11 @@ def run_engine(jobs, timeout=600, nproc=NCPU):
         else:
             out.append(r)
     return out
+
+
+def run_session(jobs, timeout=900, nproc=NCPU):
+    """Histories through H-session (beff_wasm with feature beff_verif)."""
+    return run_engine(jobs, timeout=timeout, nproc=nproc, exe_name="session")
 
 
 def run_compile(jobs, timeout=20, nproc=NCPU):
